@@ -12,7 +12,7 @@ from vlib.acc import Acc
 from vlib.ref import rfc3986 as R
 
 ID = "C03"
-ENGINE = "E1 word enumerator"
+ENGINE = "E1 word enumerator + E2 BFS over reachable URL values"
 TECHNIQUE = "bounded-exhaustive enumeration of token words through every entry point; oracle = re-parse of str(url) on the real code (differential against itself) plus quoter idempotence"
 LEVEL_TEXT = ("Every URL the routes produce from every word of the bounded word spaces, and every host/port spelling of the host "
               "alphabet, is stringified and parsed again on both backends: string form and scheme, user, password, host, port, "
@@ -205,3 +205,44 @@ def plan(ctx):
                            "hostport_matrix": [len(SCHEMES), len(USERINFO), len(HOSTS), len(PORTS), len(TAILS)],
                            "alphabet_sizes": sweep.SIZES}
     return tasks
+
+
+# ---- E2: every reachable state must be a fixed point of parsing -------------------------------------------------------
+def case_trace(acc, seed, opnames):
+    from vlib import bfs
+    acc.evals += 1
+    try:
+        u = bfs.replay(seed, list(opnames))[-1]
+    except Exception:  # noqa: BLE001
+        acc.count("trace_not_replayable")
+        return None
+    state_invariant(acc, u, (seed, list(opnames)))
+
+
+def state_invariant(acc, u, trace):
+    from vlib.ref import hostref
+    if any("encoded=True" in n for n in trace[1]):
+        acc.count("encoded_true_state_skipped")
+        return
+    try:
+        rh, sc = u.raw_host, u.scheme
+    except (ValueError, TypeError):
+        acc.count("accessor_rejected")
+        return
+    if sc and not R.SCHEME_RE.match(sc):
+        acc.count("invalid_scheme_skipped")
+        return
+    if u.raw_authority and (not rh or hostref.classify(rh) is None):
+        acc.count("invalid_host_syntax_skipped")
+        return
+    if trace[1]:
+        acc.nontrivial += 1
+    fixed_point(acc, "trace", (trace[0], list(trace[1])), u)
+
+
+CASES["trace"] = case_trace
+
+
+def finish(ctx, merged, pools):
+    from vlib import bfs
+    bfs.run(ctx, pools, merged, "checks.C03", 2 if ctx.tier == "quick" else 3)
